@@ -75,6 +75,9 @@ fn candidates(i: &Inner, only_objs: Option<&[u8]>, dormant_pool_threads: usize, 
             }
         }
     }
+    // a future_sync operation is only ever polled by the task that owns its future: a wake-up obliges somebody to poll it again only
+    // while that task is awaiting it (a future that was polled once and left is resumed when, and if, its owner comes back to it)
+    let fs_pollable = |id: OpId, o: &OpRec| o.kind != Kind::FutSync || o.parent.is_some() || awaited.contains(&id);
     // (2) accepted operations that have not finished
     for (id, o) in i.ops.iter().enumerate() {
         if !relevant(o) || !in_scope(o.obj) || i.objs[o.obj].expect_panicked {
@@ -121,11 +124,11 @@ fn candidates(i: &Inner, only_objs: Option<&[u8]>, dormant_pool_threads: usize, 
             // (a thread that is blocked in sync() on this object is a runner too: it takes a rescheduled queue over)
             // (not for a future_sync operation: that one is polled by the task that owns its future, nobody else)
             let sync_waiter = o.kind != Kind::FutSync && i.ops.iter().any(|a| a.obj == o.obj && a.kind == Kind::Sync && a.inv != 0 && a.ret == 0 && a.start == 0 && !a.panicked);
-            if i.gates[g].open && (!quiet_after_panic || (i.gates[g].opened_in_final && i.panic_clock < i.final_stage_clock)) && (pool_capacity || sync_waiter || !pool_task(if o.last_poll_task != usize::MAX { o.last_poll_task } else { o.runner_task })) {
+            if i.gates[g].open && fs_pollable(id, o) && (!quiet_after_panic || (i.gates[g].opened_in_final && i.panic_clock < i.final_stage_clock)) && (pool_capacity || sync_waiter || !pool_task(if o.last_poll_task != usize::MAX { o.last_poll_task } else { o.runner_task })) {
                 out.push(Cand { op: Some(id), obj: o.obj, prop: "C06", clause: "wake-lost", inv: o.inv, ret: o.ret, detail: format!("{:?} #{} on o{} is suspended on gate g{} which was opened at t={} but was never resumed", o.kind, id, o.obj, g, i.gates[g].opened_at) });
             }
         }
-        else if o.waiting_self && o.start != 0 && !quiet_after_panic {
+        else if o.waiting_self && o.start != 0 && !quiet_after_panic && fs_pollable(id, o) {
             // woke itself during the poll: it is never legitimately waiting
             if pool_capacity || !pool_task(if o.last_poll_task != usize::MAX { o.last_poll_task } else { o.runner_task }) {
                 out.push(Cand { op: Some(id), obj: o.obj, prop: "C06", clause: "wake-lost", inv: o.inv, ret: o.ret, detail: format!("{:?} #{} on o{} woke its own waker during a poll and returned Pending, but was never polled again", o.kind, id, o.obj) });
